@@ -100,6 +100,18 @@ T = {
  "C16-r3m2": ("old fixed-length: cut-line guard moved into the by_rows path only", "by_header_footer envelopes and a fault within the first bytes of a header line"),
  "C20-r3m1": ("javascript.go node-JSON cache stamp covers direct children only (same idea as C13-r3m1)", "javascript_with_context on the grandparent of the record"),
  "C20-r3m2": ("ingester.go one parse context for all records (same idea as C02-r3m1)", "javascript (or its arguments) evaluated with a long-lived ancestor as context node across records"),
+ "C07-r3m1": ("edi reader2.go: without a release character, bytes.SplitN with the old capacity hints as hard limits", "no release_character and > 4 repetitions / > 8 components / >= 32 elements"),
+ "C07-r3m2": ("edi reader.go rawSegToNode: the declared default goes through ByteUnescape too", "release_character declared, a default containing it, element absent"),
+ "C08-r3m1": ("idr/xmlreader.go endNamespaceScope restores forwards", "one element binding the same URI twice, then a later sibling using the outer prefix"),
+ "C08-r3m2": ("idr/marshal2.go isChildArray as a switch that misses JSONProp|JSONObj", "an object whose only key is empty and that is the value of another object's member"),
+ "C11-r3m1": ("idr/navigator.go MoveToRoot walks up to the top of the whole tree", "query started from an inner node with an expression reaching the root via / or //"),
+ "C11-r3m2": ("idr/query.go loadXPathExpr collapses white space of the expression before the cached compile", "a string literal with a tab, line break or run of spaces, default caching mode"),
+ "C17-r3m1": ("old fixed-length Read: a filter that cannot be evaluated returns a continuable error and leaves the envelope attached", "numeric filter meeting a non-numeric value"),
+ "C17-r3m2": ("flatfile hierarchyReader Release refuses nodes of stack entries whose decl has children", "target declaration with children repeating in place"),
+ "C18-r3m1": ("schema.go: BOM check on a single short read", "BOM-prefixed utf-8 input whose first Read returns fewer than 3 bytes"),
+ "C18-r3m2": ("header.go WrapEncoding skipped for xml", "xml with encoding iso-8859-1 / windows-1252 and a byte >= 0x80"),
+ "C19-r3m1": ("datetime.go shortcut when fromTZ equals toTZ", "equal non-empty zones and an input that carries its own zone"),
+ "C19-r3m2": ("datetime.go process-wide parse cache keyed by the text only", "an earlier call that read the identical text with another layout / layoutTZ flag"),
  "C02-r2m1": ("value.go normalizeAndSaveValue: a declared type makes keep_empty_or_null forget a null result", "a field with both type and keep_empty_or_null whose value is null / absent"),
  "C02-r2m2": ("invokeCustomFunc.go: ignore_error hands back the failed function's return value instead of null", "custom_func with ignore_error whose function fails while returning a non-nil first value, with keep_empty_or_null"),
  "C05-r2m1": ("flatfile hierarchyReader.go: EOF unwind loops recNext before looking at the target", "last target instance closed by end of input AND a later minimum in the same unwind unmet (csv2 / fixedlength2)"),
